@@ -5,7 +5,7 @@ from .snippets import resolve_snippets as snippets
 from .implicit_tag import implicit_tag
 from .lorem import lorem
 from .addon.xsl import xsl
-from .addon.bem import bem
+from .addon.bem import bem, release_lookup as release_bem_lookup
 from .addon.label import label
 from .format import html, haml, slim, pug
 from .utils import walk
@@ -47,6 +47,7 @@ def parse(abbr: str, config: Config):
         snippets(abbr, config)
         walk(abbr, transform, config)
     finally:
+        release_bem_lookup()
         # Leave caller's config exactly as it was, also when resolving fails
         if has_text:
             config.user_config['text'] = text
